@@ -108,6 +108,10 @@ type ClientRow struct {
 
 // Node is one running query log.
 type Node struct {
+	// NoWait makes Record return without waiting for the flush goroutine
+	// that Add may have started (the next operation then overlaps it).
+	NoWait bool
+
 	Dir      string
 	QL       querylog.QueryLog
 	Mux      *env.Mux
@@ -450,7 +454,9 @@ func (n *Node) Record(rec *Rec) (ts time.Time, storedIP string, logged bool, err
 	}
 	ts = time.Now()
 	n.QL.Add(p)
-	kernel.Wait()
+	if !n.NoWait {
+		kernel.Wait()
+	}
 	return ts, ipStr, true, nil
 }
 
